@@ -157,6 +157,10 @@ func c07markGen(r *rand.Rand, thorough bool, emit func(c, cat string)) {
 		}
 		kind := r.Intn(10) // 0..5 disjoint, 6 adjacent, 7 overlapping, 8 reversed range, 9 syntax error
 		cat := "disjoint"
+		manyLabels := i%60 == 7 // more than 256 distinct labels in one file (the label table has no small limit)
+		if manyLabels {
+			nr, kind = 330, 0
+		}
 		for j := 0; j < nr; j++ {
 			lo := c07randVal(r)
 			var span *big.Int
@@ -173,6 +177,10 @@ func c07markGen(r *rand.Rand, thorough bool, emit func(c, cat string)) {
 				span = big.NewInt(255)
 			}
 			hi := c07clamp(new(big.Int).Add(lo, span))
+			if manyLabels {
+				rs = append(rs, c07range{lo, hi, fmt.Sprintf("g%d", j)})
+				continue
+			}
 			rs = append(rs, c07range{lo, hi, labels[r.Intn(len(labels))]})
 		}
 		// make the set disjoint first: drop ranges that intersect an earlier one
